@@ -626,4 +626,15 @@ for _n in (
     C.inline(f"cohdl._core._integer:Integer.{_n}")
 
 
+for _n in ("__init__", "get", "copy"):
+    C.inline(f"cohdl._core._bit:Bit.{_n}")
+C.inline("cohdl._core._bit:BitState.from_str")
+
+# bit-level containers are opaque to the prover (their effects are the subject
+# of the bounded native checks); assumption: these calls do not raise
+from cohdl.utility import Span  # noqa: E402
+
+I.OPAQUE_CLASSES.add(Span)
+I.OPAQUE_FUNCS[id(bin)] = "bin"
+
 NS = {"cohdl": cohdl}
